@@ -475,6 +475,8 @@ class SimNet:
         conn.transport = tr
         if len(act) > 2 and act[2]:
             conn.fail_write_at = act[2]
+        if len(act) > 3 and act[3]:
+            conn.fail_exc = act[3]
         self.log.add("NET.open", conn=conn.id, host=host, port=port)
         self.max_open = max(self.max_open, len(self.open_conns()))
         proto.connection_made(tr)
